@@ -13,8 +13,10 @@ import (
 	"fmt"
 	"math/big"
 
+	"github.com/youchainhq/go-youchain/common"
 	"github.com/youchainhq/go-youchain/core/state"
 	"github.com/youchainhq/go-youchain/params"
+	"github.com/youchainhq/go-youchain/rlp"
 	"github.com/youchainhq/go-youchain/staking"
 
 	"verif/harness/vf"
@@ -51,6 +53,18 @@ func genScenario(r *vf.Rng) *Scenario {
 	s.Partial = r.Chance(15)
 	s.Twice = r.Chance(30)
 	return s
+}
+
+func delegationSub(st *state.StateDB, cfg *params.YouParams, from, validator common.Address, amount *big.Int, height uint64) error {
+	payload, err := rlp.EncodeToBytes(&staking.TxDelegation{Validator: validator, Value: new(big.Int).Set(amount)})
+	if err != nil {
+		return err
+	}
+	ok, err := hookTE(st, cfg, from, staking.DelegationSub, payload, height, 0)
+	if !ok {
+		return errNoHook
+	}
+	return err
 }
 
 func units(k int64) *big.Int { return new(big.Int).Mul(big.NewInt(k), unit) }
@@ -112,7 +126,10 @@ func runScenario(s *Scenario) (fail string, forced bool) {
 	}
 	before := st.GetValidatorByMainAddr(vaddrs[0])
 	wasOnline, total := before.IsOnline(), new(big.Int).Set(before.Stake)
-	if err := staking.VerifC08DelegationSub(st, &cfg, daddrs[0], vaddrs[0], amt, 100); err != nil {
+	if err := delegationSub(st, &cfg, daddrs[0], vaddrs[0], amt, 100); err != nil {
+		if err == errNoHook {
+			return "", false
+		}
 		return "handler: " + err.Error(), false
 	}
 	after := st.GetValidatorByMainAddr(vaddrs[0])
@@ -127,7 +144,10 @@ func runScenario(s *Scenario) (fail string, forced bool) {
 		return
 	}
 	if s.Twice {
-		if err := staking.VerifC08DelegationSub(st, &cfg, daddrs[1], vaddrs[0], units(1), 101); err != nil {
+		if err := delegationSub(st, &cfg, daddrs[1], vaddrs[0], units(1), 101); err != nil {
+			if err == errNoHook {
+				return "", forced
+			}
 			return "handler: " + err.Error(), forced
 		}
 		if !check("after a second teDelegationSub", st) {
